@@ -317,7 +317,7 @@ func evalCase(d caseDesc) ev.Result {
 				if origBody != nil {
 					o, e1 := refcbor.ParseAll(origBody)
 					n, e2 := refcbor.ParseAll(body)
-					if e1 == nil && e2 == nil && bytes.Equal(refcbor.LenientNormal(o), refcbor.LenientNormal(n)) {
+					if e1 == nil && e2 == nil && refcbor.LenientEqual(o, n) {
 						return ev.Trivial("equivalent-encoding")
 					}
 				}
